@@ -569,6 +569,8 @@ def check_cap_bit(ctx, repo):
 
 
 def run(ctx):
+    from ..memo import check_memo_keys
+    check_memo_keys(ctx, ctx.repo, MANGLE, 'ManglePolygon', 'C12.MEMO-KEY')
     repo = ctx.repo
     check_columns(ctx, repo)
     check_slices(ctx, repo)
